@@ -393,7 +393,7 @@ def run(chk):
         else:
             sessions.append({"kind": "std", "mods": c["mods"], "inputs": c["inputs"]})
         origin.append("corpus")
-    n_toy = 500 if quick else 6000
+    n_toy = 320 if quick else 6000
     n_std = 70 if quick else 1200
     for _ in range(n_toy):
         table, ops = S.gen_toy_session(chk.rng)
